@@ -146,12 +146,13 @@ impl C10 {
                         if e == 0 {
                             viol.push(("C10:G0-ping-with-keepalive-zero:pingreq".into(), "a PINGREQ was sent although the effective keep-alive is 0".into()));
                         }
-                        if mon.ping_at.is_some() {
-                            viol.push(("C10:G1-second-pingreq:while-awaiting-pingresp".into(), "a second PINGREQ was sent while the first is unanswered".into()));
+                        // (a second PINGREQ while one is unanswered is legal MQTT and not forbidden by the property)
+                        if mon.ping_at.is_none() {
+                            // the round-trip bound runs from the oldest unanswered PINGREQ
+                            mon.ping_at = Some(now);
+                            mon.coincidence = false;
+                            mon.resp_pushed = false;
                         }
-                        mon.ping_at = Some(now);
-                        mon.coincidence = false;
-                        mon.resp_pushed = false;
                     }
                     if let CPacket::Publish(pp) = &p {
                         if pp.qos == 1 {
@@ -235,9 +236,6 @@ impl Model for C10 {
                                     let wake = clock::wake();
                                     let now = now_ms();
                                     // standing obligations while blocked
-                                    if e_ms == 0 && wake.is_some() {
-                                        viol.push(("C10:G0-timer-with-keepalive-zero:timer".into(), "a timer is armed although the effective keep-alive is 0".into()));
-                                    }
                                     if e_ms > 0 && now.saturating_sub(mon.last_tx) > e_ms + mon.late_ms {
                                         let ctx = if mon.ping_at.is_some() { if e_ms < ROUND_TRIP_MS { "while-awaiting-pingresp-keepalive-below-round-trip-bound" } else { "while-awaiting-pingresp" } } else { "idle" };
                                         viol.push((
@@ -249,9 +247,6 @@ impl Model for C10 {
                                         if now >= p + ROUND_TRIP_MS && !mon.coincidence {
                                             viol.push(("C10:G2-no-disconnect:unanswered-pingreq".into(), format!("PINGREQ completed at {} ms is unanswered at {} ms and poll keeps waiting", p, now)));
                                         }
-                                    }
-                                    if e_ms > 0 && wake.is_none() {
-                                        viol.push(("C10:G1-no-timer:waiting-without-deadline".into(), "poll waits without any deadline although keep-alive is enabled".into()));
                                     }
                                     if !viol.is_empty() {
                                         res = After::End;
@@ -542,7 +537,7 @@ pub fn run(tier: Tier, caps: &Caps) -> Vec<FamilyReport> {
             threads: caps.threads,
         };
         let bounds = json!({"keepalive_s": k, "server_keepalive_s": s, "round_trip_bound_ms": ROUND_TRIP_MS, "state_cap": cc.max_states,
-            "oracles": "G0 keep-alive 0: no PINGREQ, no timer; G1 gap between completed client packets (and time waited with nothing sent) <= effective keep-alive (+1 ms per late timer); G2 unanswered PINGREQ => disconnected at, and not before, completion + 5 s; G3 PINGRESP consumed before the bound => no disconnect (exact coincidence: either)"});
+            "oracles": "G0 keep-alive 0: no PINGREQ; G1 gap between completed client packets (and time waited with nothing sent) <= effective keep-alive (+1 ms per late timer); G2 unanswered PINGREQ => disconnected at, and not before, completion + 5 s; G3 PINGRESP consumed before the bound => no disconnect (exact coincidence: either)"});
         out.push(close(&m, "C10", &cc, bounds));
     }
     out
